@@ -176,6 +176,9 @@ impl<T: Copy + Clone + Number + Signed + std::fmt::Debug> Polynomial<T> {
             t.coeffs[ r.degree()? - v.degree()? ] = r.coeffs[ r.degree()? ] / v.coeffs[ v.degree()? ];
             q = q + t.clone();
             r = r - ( t * v.clone() );
+            // The leading term cancels by construction; in floating point it can leave a rounding residue
+            let lead = r.coeffs.len() - 1;
+            r.coeffs[ lead ] = T::zero();
             r.trim();
             q.trim();
             count += 1;
